@@ -167,10 +167,8 @@ def r19c(ctx: Context) -> None:
     cfg = CFG(per_arg.node, raising=lambda n: False)
     from sa.util import enumerate_paths
 
-    rets = returns_of(per_arg)
-    if len(rets) != 1 or not isinstance(rets[0], ast.Name):
-        raise AnalysisError("__process_next_path does not return one status variable")
-    status = rets[0].id
+    if not returns_of(per_arg):
+        raise AnalysisError("__process_next_path does not return a status")
     error_param = next((p for p in per_arg.params if "error" in p), None)
     if error_param is None:
         raise AnalysisError("__process_next_path has no error callback parameter")
@@ -182,13 +180,23 @@ def r19c(ctx: Context) -> None:
         value: Optional[bool] = None
         reported = False
         conds = []
+        held: Dict[str, Optional[bool]] = {}  # boolean constants held by locals along this path
         for nid, label in path:
             node = cfg.nodes[nid]
             if node.kind == "cond":
                 conds.append(f"{norm(node.ast_node)}={label}")
-            if node.kind == "stmt" and isinstance(node.ast_node, ast.Assign) and any(isinstance(t, ast.Name) and t.id == status for t in node.ast_node.targets):
+            if node.kind == "stmt" and isinstance(node.ast_node, ast.Assign):
                 const = node.ast_node.value
-                value = const.value if isinstance(const, ast.Constant) and isinstance(const.value, bool) else None
+                constant = const.value if isinstance(const, ast.Constant) and isinstance(const.value, bool) else None
+                for target in node.ast_node.targets:
+                    if isinstance(target, ast.Name):
+                        held[target.id] = constant
+            if node.kind == "stmt" and isinstance(node.ast_node, ast.Return) and node.ast_node.value is not None:
+                returned = node.ast_node.value
+                if isinstance(returned, ast.Constant) and isinstance(returned.value, bool):
+                    value = returned.value
+                elif isinstance(returned, ast.Name):
+                    value = held.get(returned.id)
             if node.kind == "stmt" and node.ast_node is not None:
                 for call in [c for c in ast.walk(node.ast_node) if isinstance(c, ast.Call)]:
                     if isinstance(call.func, ast.Name) and call.func.id == error_param:
